@@ -52,6 +52,8 @@ async def execute(net, hyg, plan):
         if bd:
             rng = random.Random(plan.get("seed", 0))
             w.ctl.delay = lambda op, path, n: rng.choice(bd)
+        if plan.get("slow_close"):
+            w.ctl.delay = lambda op, path, n: plan["slow_close"] if op == "close" else 0
         if plan.get("inline"):
             scripts = plan["inline"]
         else:
@@ -92,6 +94,19 @@ async def execute(net, hyg, plan):
                                     f"within 10 virtual seconds"})
             elif d.close_task.exception() is not None:
                 viol.append({"key": "server-close-raises", "msg": repr(d.close_task.exception())})
+            else:
+                # at the very moment close() has returned: no task of the server is still running, no back-end file is open
+                mon["audit_at_close_return"] = mon.get("audit_at_close_return", 0) + 1
+                mine0 = d.harness_tasks() | {asyncio.current_task()}
+                alive0 = sorted({(t.get_coro().__qualname__ if t.get_coro() else "?") for t in asyncio.all_tasks()
+                                 if not t.done() and t not in mine0})
+                if alive0:
+                    viol.append({"key": f"task-alive-when-close-returned-during-{stage}",
+                                 "msg": f"Server.close() after event {cut['k']} (step {stage}) returned while {alive0} were still running"})
+                if w.ctl.open_handles:
+                    viol.append({"key": f"file-open-when-close-returned-during-{stage}",
+                                 "msg": f"Server.close() after event {cut['k']} (step {stage}) returned with back-end files open: "
+                                        f"{w.ctl.open_handles[:2]}"})
         quiet = await net.quiesce(5.0)
         if not quiet:
             return {"inconclusive": "no quiescence within bound"}
@@ -254,6 +269,11 @@ def gen_cases(tier, seed):
             for action in ("rst", "server-close"):
                 cases.append({"kind": "enum", "action": action,
                               "plan": {"scripts": [name], "backend_delay": [0.002], "latency": lat, "seed": seed}})
+    # slow clean-up: the back end's close() takes 2 s, path_timeout is configured (and irrelevant for this back end)
+    for name in ("stor_pasv", "retr_pasv", "appe"):
+        for action in ("server-close", "rst"):
+            cases.append({"kind": "enum", "action": action, "stride": 2 if tier == "quick" else 1,
+                          "plan": {"scripts": [name], "seed": seed, "slow_close": 2.0, "server_kwargs": {"path_timeout": 0.2}}})
     # slow reply writer (server-wide write limit): replies are still queued behind the throttle when the session ends
     for name in (["login_quit", "walk"] if tier == "quick" else ["login_quit", "walk", "stor_pasv", "mkd_rmd", "rename", "pipelined"]):
         for action in ("rst", "fin", "server-close"):
